@@ -39,15 +39,18 @@ package reconnect
 // transport's context done (so that nobody is left blocked on writeReqCh).
 //@ func (*Transport).writeLoop
 //@   props C18
+//@   interference
 //@   ghostvar pending bool = false
 //@   ghostvar written bool = false
 //@   after recv writeReqCh: pending = true
 //@   after recv writeReqCh: written = false
+//@   assert call Transport).Write: !written   // a request an underlying connection has accepted is never written again (no duplicate on a successor connection)
 //@   after call Transport).Write: written = (res0 == nil)
 //@   after call Transport).Write: pending = (res0 != nil)
 //@   assert call writeOrDone[github.com/aptpod/iscp-go/transport/reconnect.writeRes]: imp(arg1.err == nil, written)
 //@   forbid call writeOrDone[github.com/aptpod/iscp-go/transport/reconnect.writeReq]   // the write loop never re-enqueues a request
 //@   loop 1 invariant !pending
+//@   loop 2 invariant !written   // (inner retry loop: it is re-entered only after a failed write)
 //@   ensures done(r.ctx)
 
 // readLoop: control pings are answered via pingCh and never handed up as data.
